@@ -412,6 +412,81 @@ class Tr:
         return f"def {self.s.lean_name} {binders} : {self.s.ret} :=\n  {body}\n"
 
 
+class GenLoopTr(Tr):
+    """Generator functions whose body is: guard statements (`if c: yield from rows; return`, `if c: return`), assignments the
+    spec declares irrelevant (`skip_assign`), and ONE `for row in rows:` loop whose body uses `continue`, `yield row`,
+    `return`, `raise` (under a test the spec resolves) and updates of ONE mutable attribute (`state_attr`, e.g. `self._limit`).
+
+    The function becomes `(rows, state) -> (yielded rows, new state)`; the loop a fold over
+    `(out, state, stopped)` — once `stopped` is set (a `return` inside the loop) the remaining rows pass through untouched.
+    """
+
+    def __init__(self, spec: Spec, state_attr: str, state_name: str, rows_name: str, skip_assign: tuple[str, ...] = ()):
+        super().__init__(spec)
+        self.state_attr, self.state, self.rows, self.skip_assign = state_attr, state_name, rows_name, skip_assign
+
+    def _is_state(self, n: ast.AST) -> bool:
+        return ast.unparse(n) == self.state_attr
+
+    # ---- statements outside the loop
+    def outer(self, stmts: list[ast.stmt], depth: int) -> str:
+        ind = "  " * depth
+        stmts = [s for s in stmts if not self.skippable(s)]
+        if not stmts:
+            return f"([], {self.state})"
+        st, rest = stmts[0], stmts[1:]
+        if isinstance(st, ast.Assign) and len(st.targets) == 1 and ast.unparse(st.targets[0]) in self.skip_assign:
+            return self.outer(rest, depth)
+        if isinstance(st, ast.If) and not st.orelse:
+            body = [b for b in st.body if not self.skippable(b)]
+            texts = [ast.unparse(b) for b in body]
+            t = ast.unparse(st.test)
+            if t in self.s.variants:
+                return self.outer((list(st.body) if self.s.variants[t] else []) + rest, depth)
+            if texts == [f"yield from {self.rows}", "return"]:
+                return f"(if {self.e(st.test)} then\n{ind}  ({self.rows}, {self.state})\n{ind}else\n{ind}  {self.outer(rest, depth + 1)})"
+            if texts == ["return"]:
+                return f"(if {self.e(st.test)} then\n{ind}  ([], {self.state})\n{ind}else\n{ind}  {self.outer(rest, depth + 1)})"
+        if isinstance(st, ast.For) and isinstance(st.target, ast.Name) and ast.unparse(st.iter) == self.rows and not st.orelse and not rest:
+            v = st.target.id
+            body = self.inner(list(st.body), depth + 3, v)
+            return (f"let r := ({self.rows}).foldl (fun (acc : List _ × _ × Bool) {v} =>\n{ind}    let (out, {self.state}, stopped) := acc\n"
+                    f"{ind}    if stopped then (out, {self.state}, stopped) else\n{ind}    {body}) ([], {self.state}, false)\n{ind}(r.1, r.2.1)")
+        raise Untranslatable(f"{self.s.qualname}: statement {ast.unparse(st).splitlines()[0]!r} outside the loop")
+
+    # ---- statements inside the loop; the value is the next (out, state, stopped)
+    def inner(self, stmts: list[ast.stmt], depth: int, v: str) -> str:
+        ind = "  " * depth
+        cont = f"(out, {self.state}, false)"
+        stmts = [s for s in stmts if not self.skippable(s)]
+        if not stmts:
+            return cont
+        st, rest = stmts[0], stmts[1:]
+        if isinstance(st, ast.Continue):
+            return cont
+        if isinstance(st, ast.Return) and st.value is None:
+            return f"(out, {self.state}, true)"
+        if isinstance(st, ast.Assign) and len(st.targets) == 1 and ast.unparse(st.targets[0]) in self.skip_assign:
+            return self.inner(rest, depth, v)
+        if isinstance(st, ast.Expr) and isinstance(st.value, ast.Yield) and ast.unparse(st.value.value) == v:
+            return f"let out := out ++ [{v}]\n{ind}{self.inner(rest, depth, v)}"
+        if isinstance(st, ast.AugAssign) and self._is_state(st.target) and isinstance(st.op, ast.Sub) and ast.unparse(st.value) == "1":
+            return f"let {self.state} := {self.state}.map (· - 1)\n{ind}{self.inner(rest, depth, v)}"
+        if isinstance(st, ast.If):
+            t = ast.unparse(st.test)
+            if t in self.s.variants:
+                return self.inner((list(st.body) if self.s.variants[t] else list(st.orelse)) + rest, depth, v)
+            a = self.inner(list(st.body) + rest, depth + 1, v)
+            b = self.inner(list(st.orelse) + rest, depth + 1, v)
+            return f"(if {self.e(st.test)} then\n{ind}  {a}\n{ind}else\n{ind}  {b})"
+        raise Untranslatable(f"{self.s.qualname}: statement {ast.unparse(st).splitlines()[0]!r} inside the loop")
+
+    def function(self, fn: ast.FunctionDef) -> str:
+        binders = " ".join(f"({n} : {t})" for n, t in self.s.params)
+        body = self.outer(list(fn.body), 1)
+        return f"def {self.s.lean_name} {binders} : {self.s.ret} :=\n  {body}\n"
+
+
 def translate_file(src_path: str, specs: list[Spec], namespace: str, header: str = "", opens: str = "", tr_cls=None) -> str:
     src = open(src_path).read()
     tree = ast.parse(src)
@@ -427,6 +502,6 @@ def translate_file(src_path: str, specs: list[Spec], namespace: str, header: str
     for sp in specs:
         fn = find_function(tree, sp.qualname)
         out.append(f"-- {sp.qualname}  (lines {fn.lineno}-{fn.end_lineno})  variants={sp.variants}")
-        out.append((tr_cls or Tr)(sp).function(fn))
+        out.append((tr_cls(sp) if tr_cls else Tr(sp)).function(fn))
     out.append(f"end {namespace}")
     return "\n".join(out) + "\n"
